@@ -7,6 +7,11 @@ LEVEL_TEXT = ("Coq theorems over ALL schedules of the hub/listener model (histor
               "queue is full (open finding K-C15-slow-listener: refuted by a machine-checked witness).")
 LEVEL_NOTE = ("The theorems are about coq/Model/Hub.v (one listener call = one step; Go channels as FIFO lists, select on a closed "
               "listener as a schedule choice, map iteration order fixed — shown irrelevant unless the hub blocks). The websocket peer is "
+              "In Model/HubFed.v the broker's delivery step FDeliver (pop the head of the pending list AND call hub.Dispatch) is ONE atomic step; in the "
+              "code the pop happens under the listener's lock and the call after it — harmless because each listener function has a single delivery goroutine. "
+              "faulty_listener_isolated is each_event_once_in_order restated (the entitlement ignores ops about other listeners by definition of view_step): "
+              "the isolation content is that each_event_once_in_order holds over all schedules INCLUDING the other listeners' failures and closes; "
+              "'is dropped' is error_unregisters / remove_unregisters / dropped_listener_never_called_again. The websocket peer is "
               "replaced by the harness (constructor hook pkg/rest/verif_export.go): gorilla/websocket I/O, ping/pong and the 10 s write "
               "deadline are not exercised. The tie between model and code is sampled (differential testing).")
 TECHNIQUE = "machine-checked proof in Coq + model/code correspondence check"
@@ -21,8 +26,9 @@ TRUSTED = ["a closed listener's queue is read by nobody (the harness looks at wh
            "Go channels/select/sync.Once behave as modelled (FIFO bounded queue; a send on a full channel waits; select picks any ready branch)",
            "the harness plays the socket reader/writer through pkg/rest/verif_export.go (Take = the writer's receive, Close = what reader/writer call)",
            "timing: 'blocked' is judged by a Sync that does not return within 1 s and again within 2 s more"]
-ASSUMPTIONS = ["message ids are unique per mailbox among the retained history for the declarative reading of history_replay (NoDup hypothesis); "
-               "the operational reading (ring with holes) needs no such assumption"]
+ASSUMPTIONS = ["history_replay (declarative reading): NO (mailbox,id) pair is dispatched twice before the join — NoDup over ALL dispatches that "
+               "preceded it, aged-out ones included (store ids are unique per mailbox and never reissued while the process runs); "
+               "history_replay_ring (the ring with holes) needs no such assumption"]
 NOT_PROVED = ["hub_never_blocks_stmt (full statement: the hub goroutine can always move) — refuted by slow_listener_stall_refuted; "
               "proved as hub_never_blocks_partial under 'no open listener the hub is about to call has a full queue'"]
 KNOWN_MUST_REPRODUCE = True
